@@ -49,6 +49,10 @@ OpTable == {
   Op("w.pull", "wrap", {"wrap"}, FALSE, "Stream"),     Op("w.pulllazy", "wrap", {"wrap"}, FALSE, "Stream"),
   Op("w.pullend", "wrap", {"wrap"}, FALSE, "Stream"),  Op("w.pullcancel", "wrap", {"wrap"}, FALSE, "StreamCancel"),
   Op("w.precancel", "wrap", {"wrap"}, FALSE, "StreamCancel"),
+  \* the handler keeps adding header/trailer metadata (also after the headers were sent) while the client keeps looking
+  \* at Header()/Trailer(), or ends a unary call early so that wrap's collectMetadata reads it: unary, server stream, bidi
+  Op("w.mdunary", "wrap", {"wrap"}, FALSE, "StreamLateMD"), Op("w.mdstream", "wrap", {"wrap"}, FALSE, "StreamLateMD"),
+  Op("w.mdbidi", "wrap", {"wrap"}, FALSE, "StreamLateMD"),
   \* group.Execute: members call the wrapped client and a Value
   Op("g.all", "grp", {"wrap", "val"}, TRUE, "Group"),  Op("g.most", "grp", {"wrap", "val"}, TRUE, "Group"),
   Op("g.any", "grp", {"wrap", "val"}, TRUE, "Group"),  Op("g.one", "grp", {"wrap", "val"}, TRUE, "Group"),
